@@ -28,7 +28,10 @@ use std::sync::atomic::Ordering;
 use std::time::{Duration, Instant};
 use webrtc_util::marshal::{Marshal, Unmarshal};
 
+use rtcp::extended_report::ExtendedReport;
 use rtcp::goodbye::Goodbye as RGoodbye;
+use rtcp::payload_feedbacks::slice_loss_indication::{SliEntry, SliceLossIndication};
+use rtcp::transport_feedbacks::rapid_resynchronization_request::RapidResynchronizationRequest;
 use rtcp::payload_feedbacks::full_intra_request::{FirEntry, FullIntraRequest as RFir};
 use rtcp::payload_feedbacks::picture_loss_indication::PictureLossIndication as RPli;
 use rtcp::payload_feedbacks::receiver_estimated_maximum_bitrate::ReceiverEstimatedMaximumBitrate as RRemb;
@@ -1041,6 +1044,85 @@ fn rtcp_case(cx: &mut Ctx, rng: &mut Rng) {
     }
 }
 
+// ------------------------------------------------------------------------------------------- foreign wire input (EXT)
+
+fn foreign_case(cx: &mut Ctx, rng: &mut Rng) {
+    let case = cx.case;
+    cx.kind = "foreign".to_string();
+    let parts = arr(&case["parts"]);
+    let mut refs: Vec<RBox> = Vec::new();
+    let mut survivors: Vec<L> = Vec::new();
+    let mut rembx: Vec<bool> = Vec::new(); // per survivor: out-of-range REMB
+    for (p, l24) in parts.iter().zip(arr(&case["lost24"])) {
+        let n = u(&p["n"]) as usize;
+        match s(&p["t"]) {
+            "RRR" => refs.push(Box::new(RapidResynchronizationRequest { sender_ssrc: rng.next() as u32, media_ssrc: rng.next() as u32 })),
+            "SLI" => refs.push(Box::new(SliceLossIndication {
+                sender_ssrc: rng.next() as u32,
+                media_ssrc: rng.next() as u32,
+                sli_entries: (0..n).map(|k| SliEntry { first: k as u16, number: 1, picture: 3 }).collect(),
+            })),
+            "XR" => refs.push(Box::new(ExtendedReport { sender_ssrc: rng.next() as u32, reports: vec![] })),
+            "REMBX" => {
+                let a: Vec<i64> = arr(&p["a"]).iter().map(i).collect();
+                let l = L::Remb { s: rng.next() as u32, mant: a[0] as u64, exp: a[1] as u32, low: false,
+                                  ssrcs: (0..n).map(|_| rng.next() as u32).collect() };
+                refs.push(to_ref(&l, None));
+                survivors.push(l);
+                rembx.push(true);
+            }
+            _ => {
+                let l = logical(p, l24, rng);
+                refs.push(to_ref(&l, None));
+                survivors.push(l);
+                rembx.push(false);
+            }
+        }
+    }
+    let rbytes = match catch(|| rtcp::packet::marshal(&refs)) {
+        Ok(Ok(b)) => b,
+        other => {
+            cx.diverge("EXT", "reference_marshal", json!("Ok"), json!(trunc(format!("{other:?}"))));
+            return;
+        }
+    };
+    let total: u64 = arr(&case["lens"]).iter().map(u).sum();
+    if total as usize != rbytes.len() {
+        cx.diverge("EXT", "foreign_total_len_model_vs_reference", json!(total), json!(rbytes.len()));
+    }
+    cx.nchecks += 1;
+    match catch(|| parse_rtcp_packets(&rbytes, None)) {
+        Ok(Ok(got)) => {
+            let wn: Vec<&str> = survivors.iter().map(l_name).collect();
+            let gn: Vec<&str> = got.iter().map(type_name).collect();
+            if wn != gn {
+                cx.diverge("EXT", "foreign_supported_parts_delivered", json!(wn), json!(gn));
+                return;
+            }
+            for ((w, g), over) in survivors.iter().zip(&got).zip(&rembx) {
+                if *over {
+                    // value >= 2^64: refused (handled above as Err) or saturated, never silently wrapped
+                    if let RtcpPacket::RemoteBitrateEstimate(x) = g
+                        && x.bitrate_bps != u64::MAX
+                    {
+                        cx.diverge("EXT", "remb_over_u64_wraps", json!("Err or u64::MAX"), json!(x.bitrate_bps));
+                    }
+                } else {
+                    // a supported part next to a foreign one is an ordinary wire packet: the listed property applies
+                    cmp_rustrtc(cx, "RefBytesParse", std::slice::from_ref(w), std::slice::from_ref(g));
+                }
+            }
+        }
+        Ok(Err(e)) => {
+            let only_rembx = parts.iter().all(|p| !matches!(s(&p["t"]), "RRR" | "SLI" | "XR"));
+            if !(only_rembx && rembx.iter().any(|b| *b)) {
+                cx.diverge("EXT", "foreign_part_rejects_whole_compound", json!("Ok (foreign parts skipped)"), json!(format!("Err({e:?})")));
+            }
+        }
+        Err(p) => cx.diverge("RefBytesParse", "parse_panic", json!("no panic"), json!(p)),
+    }
+}
+
 // ------------------------------------------------------------------------------------------- ext Set/Get
 
 fn ext_value(id: u64, len: u64, ver: u64, seed: u64) -> Vec<u8> {
@@ -1056,6 +1138,28 @@ fn ext_case(cx: &mut Ctx, rng: &mut Rng) {
     // ---- base header
     let mut header = match base {
         "fresh" => RtpHeader::new(96, 7, 1234, 0x0102_0304),
+        "padded1" => {
+            // a well-formed, non-canonical one-byte block: padding octets before, between and after the elements
+            let mut d = vec![0u8];
+            d.push((3 << 4) | 1);
+            d.extend(ext_value(3, 2, 0, seed));
+            d.extend([0u8, 0]);
+            d.push((9 << 4) | 15);
+            d.extend(ext_value(9, 16, 0, seed));
+            while d.len() % 4 != 0 {
+                d.push(0);
+            }
+            let mut b = vec![0x90u8, 96, 0, 7, 0, 0, 4, 210, 1, 2, 3, 4, 0xBE, 0xDE, 0, (d.len() / 4) as u8];
+            b.extend(&d);
+            b.extend([1u8, 2, 3]);
+            match RtpPacket::parse(&b) {
+                Ok(p) => p.header,
+                Err(e) => {
+                    cx.diverge("RefBytesParse", "parse_result", json!("Ok"), json!(format!("{e:?}")));
+                    return;
+                }
+            }
+        }
         _ => {
             // obtained from the wire: serialised by the reference, parsed by rustrtc
             let two = base == "parsed2";
@@ -1137,7 +1241,8 @@ fn ext_case(cx: &mut Ctx, rng: &mut Rng) {
         Ok(Ok(bytes)) => {
             if let Some(x) = &header.extension {
                 cx.eq("Layout", "ext_data_multiple_of_4", &0usize, &(x.data.len() % 4));
-                if base != "parsed2" && x.data.len() != u(&case["datalen"]) as usize {
+                let rebuilt = arr(&case["map"]).iter().any(|e| u(&e["ver"]) > 0);
+                if base != "parsed2" && (base != "padded1" || rebuilt) && x.data.len() != u(&case["datalen"]) as usize {
                     cx.diverge("EXT", "ext_block_not_compact", json!(case["datalen"]), json!(x.data.len()));
                 }
             }
@@ -1465,6 +1570,7 @@ fn main() {
         let r = catch(|| match mode.as_str() {
             "rtp" => rtp_case(&mut cx, &mut rng),
             "rtcp" => rtcp_case(&mut cx, &mut rng),
+            "foreign" => foreign_case(&mut cx, &mut rng),
             "ext" => ext_case(&mut cx, &mut rng),
             "nack" => nack_case(&mut cx, &mut rng),
             "rtx" => rtx_case(&mut cx, &mut rng),
